@@ -81,6 +81,31 @@ def _neardup_cases():
                 yield {"fam": "merge", "c1": {"i": i1, "o": ["o"], "a": [], "g": [t1]}, "c2": {"i": i2, "o": ["o"], "a": [], "g": [t2, [{"o": 1}, 1]]}}
 
 
+def _joint_cases():
+    """an interface-level guarantee of one operand that is implied only jointly by several terms of both operands; near-equal terms"""
+    c1 = {"i": ["i"], "o": ["z"], "a": [], "g": [[{"z": 1, "i": -1}, 0], [{"z": -1}, 0]]}
+    c2 = {"i": ["z"], "o": ["y1", "y2"], "a": [], "g": [[{"y1": 1, "z": -1}, 0], [{"y2": 1, "z": 2}, 3], [{"y1": 1, "y2": 1}, 3]]}
+    for keep in ([], ["z"]):
+        yield {"fam": "overlap", "w": "joint", "c1": c1, "c2": c2, "keep": keep}
+    c3 = {"i": ["i"], "o": ["z"], "a": [[{"i": 1}, 4]], "g": [[{"z": 1, "i": -1}, 0], [{"z": -1}, 0]]}
+    c4 = {"i": ["z", "j"], "o": ["y"], "a": [], "g": [[{"y": 1, "z": -1, "j": -1}, 0], [{"y": 1, "j": -1}, 4], [{"j": 1}, 9]]}
+    yield {"fam": "overlap", "w": "joint", "c1": c3, "c2": c4, "keep": []}
+    for f in (1.000008, 0.99999, 1.0002):
+        t1 = [{"i": 1, "j": 2.5, "o": 1}, 1]
+        t2 = [{"i": f, "j": 2.5, "p": 1}, 1]
+        a = {"i": ["i", "j"], "o": ["o"], "a": [], "g": [t1, [{"i": 1, "j": 2.5}, 1]]}
+        b = {"i": ["i", "j"], "o": ["p"], "a": [], "g": [t2, [{"i": f, "j": 2.5}, 1]]}
+        yield {"fam": "overlap", "w": "neareq", "c1": a, "c2": b, "keep": []}
+        yield {"fam": "merge", "c1": {"i": ["i", "j"], "o": ["o"], "a": [], "g": [[{"i": 1, "j": 2.5, "o": 1}, 1]]},
+               "c2": {"i": ["i", "j"], "o": ["o"], "a": [], "g": [[{"i": f, "j": 2.5, "o": 1}, 1]]}}
+    # sequences: the same contract composed with two partners whose assumptions have equal constants but other coefficients
+    p = {"i": ["x1", "x2"], "o": ["y"], "a": [], "g": [[{"y": 1, "x1": -1, "x2": -1}, 0], [{"y": 1}, 8]]}
+    q1 = {"i": ["x1", "x2"], "o": ["w"], "a": [[{"x1": 1}, 4], [{"x2": 1}, 4]], "g": [[{"w": 1}, 1]]}
+    q2 = {"i": ["x1", "x2"], "o": ["w"], "a": [[{"x1": 1}, 4], [{"x2": -1}, 4]], "g": [[{"w": 1}, 1]]}
+    yield {"fam": "seq", "seq": [[p, q1], [p, q2]]}
+    yield {"fam": "seq", "seq": [[p, q2], [p, q1]]}
+
+
 def _merge_cases():
     panel = [[{"i": 1}, 2], [{"o": 1, "i": -1}, 0], [{"o": 1}, 3], [{"o": 2}, 6], [{"o": 1}, 4], [{"o": -1}, 0]]
     A = [[], [[{"i": -1}, 0]], [[{"i": 1}, 1]]]
@@ -101,6 +126,8 @@ def cases(tier, seed):
     for c in _match_cases():
         yield c
     for c in _neardup_cases():
+        yield c
+    for c in _joint_cases():
         yield c
     k = 0
     for w in ("indep", "share"):
@@ -137,11 +164,20 @@ def run_case(case):
     from pacti.utils.errors import IncompatibleArgsError
 
     out = []
-    try:
-        c1, c2 = contract(case["c1"]), contract(case["c2"])
-    except ValueError:
-        return [("construct:ValueError", False, None, None)]
     fam = case["fam"]
+    if fam != "seq":
+        try:
+            c1, c2 = contract(case["c1"]), contract(case["c2"])
+        except ValueError:
+            return [("construct:ValueError", False, None, None)]
+    if fam == "seq":
+        for k, (a, b) in enumerate(case["seq"]):
+            for x in run_case({"fam": "overlap", "w": "seq", "c1": a, "c2": b, "keep": []}):
+                viol = x[3]
+                if viol is not None:
+                    viol = dict(viol, sub={"seq": k, "inner": viol["sub"]}, what="composition %d of a sequence: %s" % (k, viol["what"]))
+                out.append((x[0], True, x[2], viol) + tuple(x[4:]))
+        return out
     if fam == "merge":
         for a, b, tag in ((c1, c2, "12"), (c2, c1, "21")):
             sub = {"op": "merge", "call": tag}
